@@ -42,6 +42,8 @@ class ScalarOp(diff.DiffOperator, operator.CombinableOperator):
         d2arrs = d2arrs or {}
         ref = self.arr if axes is None else scalar_setup(arr, arr0, check=check)[0]
         opts = {"axes": axes, "check": check, "ref": ref}
+        if axes is not None:
+            self._move_coefficients(axes, ref.ndim - 1)
         self.darrs = {param: scalar_setup(*darrs[param], **opts) for param in darrs}
         self.d2arrs = {
             diff.Pair(params): scalar_setup(*d2arrs[params], **opts)
